@@ -914,7 +914,8 @@ def run_json(J: Judge, e: Entry, quota: int, budget: Budget, per_path: int | Non
     # every (seed, path) pair in a shuffled order, so that a budget cut thins all fields evenly instead of dropping the last ones
     pairs = [(s, path) for s in seeds for path in JM.paths(s)]
     rng.shuffle(pairs)
-    # integer-valued fields first among equals: they carry the counts, amounts and indexes
+    # integer-valued fields first: they carry the counts, amounts, indexes and versions
+    pairs.sort(key=lambda sp: 0 if isinstance(JM.get(sp[0], sp[1]), int) and not isinstance(JM.get(sp[0], sp[1]), bool) else 1)
     for s, path in pairs:
         if budget.over():
             ctx.stat("json:paths-not-reached")
@@ -1686,11 +1687,11 @@ def plan(tier: str, seed: int) -> list[dict]:
     for grp, n in GROUPS.items():
         for i in range(n):
             specs.append({"name": f"{grp}-{i}", "fn": "shard_entries", "group": grp, "part": i, "of": n,
-                          "sys_cap": 450 if q else 6000, "quota": 700 if q else 40000,
-                          "_budget_s": 55 if q else 1100, "_timeout_s": 900 if q else 3600})
+                          "sys_cap": 900 if q else 6000, "quota": 1500 if q else 40000,
+                          "_budget_s": 70 if q else 1100, "_timeout_s": 900 if q else 3600})
     for i, w in enumerate(("even", "odd")):
-        specs.append({"name": f"pred-{i}", "fn": "shard_pred", "which": w, "quota": 7000 if q else 200000,
-                      "_budget_s": 50 if q else 1000, "_timeout_s": 900 if q else 3600})
+        specs.append({"name": f"pred-{i}", "fn": "shard_pred", "which": w, "quota": 12000 if q else 200000,
+                      "_budget_s": 60 if q else 1000, "_timeout_s": 900 if q else 3600})
     if not q:
         specs.append({"name": "atheris", "fn": "shard_atheris", "_budget_s": 900, "_timeout_s": 2400})
     return specs
